@@ -283,7 +283,7 @@ def kind_for(pid: str, case: dict, symptom: str, detail: str) -> str:
             return f"{pid}:unused-step-cancelled"
         if symptom == "output-mismatch" and merge_flattened_of_crossproduct(doc):
             return f"{pid}:merge-flattened-of-crossproduct-array-reordered"
-        if symptom == "output-mismatch" and duplicate_sources(doc):
+        if symptom in ("output-mismatch", "sf-fails-only") and duplicate_sources(doc):
             return f"{pid}:duplicate-source-collapsed"
         if symptom == "output-mismatch" and outputs_sharing_a_source(doc):
             return f"{pid}:outputs-sharing-a-source"
